@@ -1858,7 +1858,7 @@ hwloc__xml_import_diff(hwloc__xml_import_state_t state,
 
     ret = state->global->find_child(state, &childstate, &tag);
     if (ret < 0)
-      return -1;
+      goto error;
     if (!ret)
       break;
 
@@ -1868,13 +1868,18 @@ hwloc__xml_import_diff(hwloc__xml_import_state_t state,
       ret = -1;
 
     if (ret < 0)
-      return ret;
+      goto error;
 
     state->global->close_child(&childstate);
   }
 
   *firstdiffp = firstdiff;
   return 0;
+
+ error:
+  /* drop the entries that were already imported */
+  hwloc_topology_diff_destroy(firstdiff);
+  return -1;
 }
 
 /***********************************
